@@ -19,6 +19,18 @@ NA = {
 }
 
 CHECKS = {
+ "C01": dict(
+   engine="E1 history refinement + E3 replica ensembles",
+   technique="deterministic simulation: recorded RNG/posterior-call histories of seeded runs refined attempt by attempt against the Metropolis-Hastings rule (with tail-draw, edge-uniform, -inf moat and exchange faults); exact-null stationarity tests over seeded replica ensembles started from exact draws; long-run moment check",
+   text=("Layer A decides, for every attempt of every generated history, that the accept/reject outcome equals u < MH probability of the "
+         "move actually proposed (Gibbs/Metropolis/PCA: tempered density ratio; HMC: Hamiltonian difference from recorded trajectory end "
+         "points plus immediate reverse-trajectory replay; ensemble: stretch geometry about the partner, z-law, z^(d-1) factor, incl. "
+         "retries). Layer B: 30 sampler/target/temperature configurations x 8k-200k replicas started from exact draws of pi^(1/T); the "
+         "state after 1-3 attempts must have uniform probability-integral transforms (exact binomial + chi-square at p<1e-9 after "
+         "Bonferroni). Layer C: variance ratio / mean offset of long chains, gross threshold 0.25, fine 6 se + 0.03. Known findings F1 "
+         "(retry-until-accept), F2 (reflected stretch), F4 (bounded HMC with matrix mass) are reported as KNOWN-FINDING."),
+   design_ref="DESIGN.md 3.1",
+   note="Trusted: harness targets (exact samplers/CDFs of pi^(1/T)); a decision is judged only when its uniform is identifiable in the history (else counted uninterpretable, layers B/C remain); statistical layers bound, not exclude, distributional error."),
  "C04": dict(
    engine="E1 lifecycle with evaluation monitor",
    technique="deterministic simulation: every argument reaching the wrapped posterior/gradient and every stored sample is monitored against a model of the limits in force, under seeded histories of limit-setting calls and steps with tail-draw injection and huge proposal widths; exact rational fold as reference",
